@@ -528,7 +528,38 @@ static int do_search(const char *in, const char *outname) {
       out << (i ? "," : "") << "{\"ngbs\":" << jl(l1) << ",\"sphere\":" << jl(l2) << ",\"closest\":" << cl
           << ",\"pl\":" << pl << "}";
     }
-    out << "]}\n";
+    out << "]";
+    // the neighbour iterator used for grid construction: buckets in expanding shells around the bucket of a point; after
+    // every stage: how many points have been returned so far and the radius (squared, lattice units) within which the
+    // iterator claims to be complete; at the end every point must have been returned exactly once
+    if (locations != nullptr && npos <= 200) {
+      out << ",\"iter\":[";
+      for (long t = 0; t < std::min(3l, npos); ++t) {
+        const long idx = (t * 7919 + 13) % npos;
+        auto it = locations->get_neighbours(idx);
+        std::vector< long > rank(npos, -1), stages;
+        long count = 0, dup = 0;
+        bool more = true;
+        while (more) {
+          const std::vector< uint_least32_t > &ngbs = it.get_neighbours();
+          for (size_t k = 0; k < ngbs.size(); ++k) {
+            if (rank[ngbs[k]] >= 0)
+              ++dup;
+            else
+              rank[ngbs[k]] = ++count;
+          }
+          more = it.increase_range();
+          // safe (slightly reduced) completeness radius in lattice units squared
+          const double r2 = it.get_max_radius2() / (u * u);
+          stages.push_back(count);
+          stages.push_back((long)std::floor(std::min(r2 * (1. - 1.e-9) - 1.e-9, 1.e9)));
+        }
+        out << (t ? "," : "") << "{\"i\":" << idx << ",\"dup\":" << dup << ",\"count\":" << count << ",\"rank\":" << jl(rank)
+            << ",\"stages\":" << jl(stages) << "}";
+      }
+      out << "]";
+    }
+    out << "}\n";
     out.flush();
     delete locations;
   }
